@@ -153,6 +153,13 @@ def run(ck, cancels=False):
     swept += _core.phase_tasks("retry", pq, [("env2", "env1"), ("env3", "env1")],
                                range(1, 30 if quick else 60), [100, 300] if quick else range(10, 310, 10),
                                facts=facts_of(pq))
+    # long runs of zero-delay retries over a synchronous delegate (every attempt completes inside submit()): the
+    # attempts stay sequential - and the stack flat - however many there are
+    for nfail in ((350,) if quick else (350, 600, 900)):
+        pz = {"flavour": "sync", "policy": {"kind": "exc", "max_attempts": nfail + 50, "sleep": 0, "exponent": 1, "max_sleep": 0},
+              "jobs": [{"script": ["E"] * nfail + ["V"], "S": 0, "C": False}], "dur": 0, "horizon": 4000}
+        swept.append({"scen": "retry", "params": pz, "strat": ["random", 1, 0.6], "gran": "sync", "facts": facts_of(pz),
+                      "opts": {"max_steps": 40 * nfail + 2000}})
     ck.run_and_validate(swept, TRACE, nontrivial=lambda t, r: True)
     ck.assumptions += [
         "back-off arithmetic in integer ticks (1 ms); attempt end = InvokeEnd; SLACK = 3 ticks",
